@@ -245,7 +245,7 @@ def reader_model(ctx, entry='mininec.main'):
     models = {}
     # the dispatch of deferred transformations: t[1](t[0], t[2], t[3]) over the collected tuples
     dispatch = None
-    for n in ast.walk(f.node):
+    for n in ast.walk(ctx.flat(entry).node):        # (main with its private / module-level helpers inlined)
         if isinstance(n, ast.Call) and isinstance(n.func, ast.Subscript) and isinstance(n.func.slice, ast.Constant) \
            and isinstance(n.func.value, ast.Name):
             idx = []
@@ -292,7 +292,8 @@ def reader_model(ctx, entry='mininec.main'):
                 om.parts.add(re.sub(r'_k\d+', '_k', P))
                 om.where = om.where or st
                 om.npaths += 1
-                rejecting = p.end == 'return' and isinstance(p.ret, ast.Constant) and p.ret.value is not None
+                rejecting = (p.end == 'return' and isinstance(p.ret, ast.Constant) and p.ret.value is not None) or \
+                    p.end == 'raise' or getattr(p, '_raised', False)      # (a diagnostic exception ends the run as well)
                 lenP = 'len(%s)' % P
                 for n_ in range(0, MAXN + 1):
                     env = dict(int_consts)
